@@ -5,7 +5,7 @@ LEVEL = "model_checking"
 def run(ctx):
     for fam in []:
         sqlprop.laws(ctx, f"SqlLaws_{fam}_{ctx.tier}.cfg")
-    sqlprop.run_sql_property(ctx, corpus=['cte'], seeded=[('joins', {'cte': True, 'cte_p': 1.0, 'derived': True})], quick_n=250, thorough_n=800, seeded_quick=250,
+    sqlprop.run_sql_property(ctx, corpus=['cte', 'cte2'], seeded=[('joins', {'cte': True, 'cte_p': 1.0, 'derived': True})], quick_n=250, thorough_n=800, seeded_quick=250,
         rule='WITH clauses of 1-2 CTEs (the second may reference the first) referenced 0-3 times in joins, plus derived tables; answers defined by substitution in SqlSem (WithEnv).')
 
 def replay(ctx, obj):
